@@ -314,11 +314,15 @@ def _fit_cases(ctx):
         out.append({'kind': 'fit', 'shape': shape, 'x0': x0, 'y0': y0, 'eps': 0.3, 'pa': pa, 'law': 'gauss',
                     'init': init, 'opts': {'minsma': 3.0, 'maxsma': 30.0, 'step': 0.1}, 'model': True})
     # fix_* fits
-    fixes = [{'fix_center': True}, {'fix_pa': True}, {'fix_eps': True}]
+    fixes = [{'fix_center': True}, {'fix_pa': True}, {'fix_eps': True},
+             # the outward pass ends in non-iterative extraction (sma > maxrit): the inward pass
+             # starts from the last outward isophote and must still honour the request
+             {'fix_center': True, 'maxrit': 14.0}, {'fix_pa': True, 'maxrit': 12.0}]
     if ctx.thorough:
         fixes += [{'fix_center': True, 'fix_pa': True}, {'fix_pa': True, 'fix_eps': True},
                   {'fix_center': True, 'fix_eps': True}, {'fix_eps': True, 'linear': True, 'step': 2.0},
-                  {'fix_center': True, 'linear': True, 'step': 2.0}, {'fix_pa': True, 'minsma': 0.0}]
+                  {'fix_center': True, 'linear': True, 'step': 2.0}, {'fix_pa': True, 'minsma': 0.0},
+                  {'fix_eps': True, 'maxrit': 16.0}, {'fix_center': True, 'fix_pa': True, 'maxrit': 10.0}]
     # deterministic case: nearly round galaxy, fix_pa down to the centre (eps crosses zero at sub-pixel sma)
     pa75 = math.radians(75)
     out.append({'kind': 'fit', 'shape': [81, 95], 'x0': 47.6, 'y0': 39.9, 'eps': 0.1, 'pa': pa75, 'law': 'gauss',
